@@ -30,6 +30,7 @@ use core::fmt;
 use core::marker::PhantomData;
 
 use crate::error::Error;
+use crate::tlv::TLVSequence;
 use crate::utils::init;
 
 use super::{EitherIter, FromTLV, TLVElement, TLVSequenceIter, TLVTag, TLVWrite, ToTLV, TLV};
@@ -91,6 +92,12 @@ where
 
     /// Returns an iterator over the elements of the container.
     pub fn iter(&self) -> TLVContainerIter<'a, T> {
+        if self.element.is_empty() {
+            // An empty element stands for a missing container (the constructors do accept it):
+            // there is nothing to iterate over
+            return TLVContainerIter::new(TLVSequence(&[]).iter());
+        }
+
         TLVContainerIter::new(unwrap!(self.element.container()).iter())
     }
 }
@@ -226,6 +233,11 @@ where
     C: 'a,
 {
     fn from_tlv(element: &TLVElement<'a>) -> Result<Self, Error> {
+        // Same check as in the `new` constructors, so that `iter` cannot fail later
+        if !element.is_empty() {
+            element.container()?;
+        }
+
         Ok(Self::new_unchecked(element.clone()))
     }
 }
